@@ -1,4 +1,5 @@
 import TinyVerif.Proofs.IoLemmas
+import TinyVerif.Proofs.IoPrint
 /-!
 # C15 — Read/Write helpers are exact for any pattern of short transfers, EINTR, errors
 
@@ -125,6 +126,62 @@ theorem write_fmt_exact (bss : List (List Nat)) (script : List WResp)
       (writeFmt (bss.map .str) script).sink.length < bss.flatten.length) :=
   writeFmt_spec bss script hp
 
+
+/-! ## The print macros' own `fmt::Write` adapter (tiny-std/src/unix/print.rs)
+
+`tryPrint` mirrors `try_print` (the loop over the `write` system call behind `__UnixWriter::write_str` and
+`__write_newline`), `printFmt` what `fmt::write` does with it, `printMacro` one expansion of
+`print!`/`eprint!` (`ln = false`) or `println!`/`eprintln!` (`ln = true`), `printSeq` several expansions in a row
+(`dbg!(a, b)`).  The kernel's answers are the script; `pos`/`isZero`/`isErr` classify an answer as a positive count,
+`0`, or an error (EINTR included — `try_print` does not retry, it reports `fmt::Error`).  `o.calls script` pairs every
+consumed answer with the size of the buffer that call offered (the model's log); `badZero` = the answer `0` to a
+non-empty buffer (`0` for a zero-length write — an empty piece, `print!("")` — is the normal answer and is covered).
+
+`…_partial`: the statements exclude exactly one input class, a `write` that returns `0` for a non-empty buffer; for
+that class the property fails in the code (`print_zero_return_loses_bytes`, a known finding). -/
+
+/-- **try_print_exact.** For every piece and every script of kernel answers: the descriptor receives a prefix of the
+piece, in order, each byte once; the function never panics; it returns `Err` exactly when the last answer it
+consumed was an error, every earlier answer having been a positive (short) count; and if no consumed answer
+was `0` for a non-empty buffer, `Ok` means that the whole piece was delivered.  Unconsumed answers are left for the next call. -/
+theorem try_print_exact (data : List Nat) (script : List WResp) :
+    PSpec data script (tryPrint data script) := tryPrint_spec script data
+
+/-- **print_fmt_exact_partial.** For every sequence of `write_str` pieces and every script: unless a consumed answer
+was `0` for a non-empty buffer, the descriptor receives a prefix of the concatenated pieces, in order, each byte once — all of it when the
+result is `Ok`; `Err` only if the kernel returned an error. -/
+theorem print_fmt_exact_partial (bss : List (List Nat)) (script : List WResp) :
+    FSpec bss script (printFmt (bss.map .str) script) := printFmt_spec bss script
+
+/-- **print_macro_in_order_partial.** One `print!`/`println!`/`eprint!`/`eprintln!`: unless a consumed answer was `0`
+for a non-empty buffer, what reaches the descriptor is a prefix of the rendered message followed by a prefix of the newline (for the `ln`
+forms) — never bytes out of order, never a byte twice, never a hole inside the message. -/
+theorem print_macro_in_order_partial (ln : Bool) (bss : List (List Nat)) (script : List WResp)
+    (hz : ∀ c ∈ (printMacro ln (bss.map .str) script).calls script, badZero c = false) :
+    ∃ n m, (printMacro ln (bss.map .str) script).sink = bss.flatten.take n ++ (nlOf ln).take m :=
+  printMacro_form ln bss script hz
+
+/-- **print_macro_short_writes_exact.** Under a kernel that only ever takes fewer bytes than offered (any pattern of
+positive counts, no error, no `0`), the descriptor receives exactly the rendered message and the newline, whatever
+the lengths of the pieces. -/
+theorem print_macro_short_writes_exact (ln : Bool) (bss : List (List Nat)) (script : List WResp)
+    (h : ∀ r ∈ script.take (printMacro ln (bss.map .str) script).used, r.pos = true) :
+    (printMacro ln (bss.map .str) script).sink = bss.flatten ++ nlOf ln :=
+  printMacro_short_writes ln bss script h
+
+/-- the same for a sequence of expansions on one descriptor (`dbg!(a, b)`), which continue on the rest of the script -/
+theorem print_seq_short_writes_exact (ms : List (Bool × List (List Nat))) (script : List WResp)
+    (h : ∀ r ∈ script.take (printSeq (seqItems ms) script).used, r.pos = true) :
+    (printSeq (seqItems ms) script).sink = seqRender ms :=
+  printSeq_short_writes ms script h
+
+/-- **the excluded class is a real defect of the code**: a `write` returning `0` for a non-empty buffer makes
+`try_print` report `Ok`, drop the rest of that piece and carry on with the next piece — "abc" "de" under the answers
+1, 0 reaches the descriptor as "ade", and the macro's result is `Ok`. -/
+theorem print_zero_return_loses_bytes :
+    (printFmt [.str [0x61, 0x62, 0x63], .str [0x64, 0x65]] [.accept 1, .accept 0]).sink = [0x61, 0x64, 0x65] ∧
+    (printFmt [.str [0x61, 0x62, 0x63], .str [0x64, 0x65]] [.accept 1, .accept 0]).res = .ok () := by decide
+
 /-- `filled ≤ initialized ≤ capacity` -/
 def ReadBuf.WF (b : ReadBuf) : Prop := b.filled ≤ b.init ∧ b.init ≤ b.cap
 
@@ -218,6 +275,31 @@ example : (writeAll [1, 2, 3, 4, 5] [.accept 2, .eintr, .accept 0]).res = .err .
 example : (writeFmt [.str [0x5b], .str [1, 2], .str [], .str [0x5d]] [.accept 1, .accept 1, .err 28]).res = .err (.os 28) ∧
     (writeFmt [.str [0x5b], .str [1, 2], .str [], .str [0x5d]] [.accept 1, .accept 1, .err 28]).sink = [0x5b, 1] ∧
     (writeFmt [.str [1], .fail, .str [2]] []).res = .err .formatter := by decide
+
+/-- print path: short writes over pieces of different lengths, then the newline; the hypothesis of
+`print_macro_short_writes_exact` holds for this script (every consumed answer is a positive count) -/
+example : (printMacro true [.str [1, 2, 3], .str [], .str [4, 5]] [.accept 2, .accept 5, .accept 0, .accept 1]).sink = [1, 2, 3, 4, 5, 10] ∧
+    (printMacro true [.str [1, 2, 3], .str [4, 5]] [.accept 2, .accept 5, .accept 1]).used = 3 := by decide
+example : ∀ r ∈ ([.accept 2, .accept 5, .accept 1] : List WResp).take
+    (printMacro true ([[1, 2, 3], [4, 5]].map .str) [.accept 2, .accept 5, .accept 1]).used, r.pos = true := by decide
+
+/-- the hypothesis of `print_macro_in_order_partial` holds for a script with an EINTR and a `0` answered to the
+zero-length write of an empty piece (and fails for a `0` answered to a non-empty one) -/
+example : (∀ c ∈ (printMacro true ([[1, 2], [], [3, 4]].map .str) [.accept 1, .accept 1, .accept 0, .eintr, .accept 1]).calls
+      [.accept 1, .accept 1, .accept 0, .eintr, .accept 1], badZero c = false) ∧
+    (printMacro true ([[1, 2], [], [3, 4]].map .str) [.accept 1, .accept 1, .accept 0, .eintr, .accept 1]).sink = [1, 2, 10] ∧
+    ¬ (∀ c ∈ (printMacro false ([[1, 2]].map .str) [.accept 0]).calls [.accept 0], badZero c = false) := by decide
+
+/-- EINTR is not retried: the message is cut at that point (`Err`), the newline of `println!` is still attempted;
+`print!("")` issues one zero-length write; a failing `Display` impl stops the message without a write -/
+example : (printMacro true [.str [1, 2, 3], .str [4]] [.accept 1, .eintr, .accept 1]).sink = [1, 10] ∧
+    (printFmt [.str [1, 2, 3], .str [4]] [.accept 1, .eintr, .accept 1]).res = .err .formatter ∧
+    (printMacro false [.str []] [.err 5]).used = 1 ∧
+    (printMacro true [.str [1], .fail, .str [2]] []).sink = [1, 10] := by decide
+
+/-- `dbg!(a, b)`: two `eprintln!` expansions sharing the script -/
+example : (printSeq [(true, [.str [0x5b], .str [1]]), (true, [.str [0x5b], .str [2]])] [.accept 1, .accept 1, .accept 1, .accept 1]).sink =
+    [0x5b, 1, 10, 0x5b, 2, 10] := by decide
 
 example : (⟨10, 3, 5, 5, false⟩ : ReadBuf).WF := ⟨by decide, by decide⟩
 
